@@ -331,7 +331,9 @@ def gen_ctx_case(rng, lps=None, nps=None, max_ops=6, max_rows=30, arm_changes=Tr
                 a = removed.pop(rng.randrange(len(removed)))
             else:
                 a = next_arm; next_arm += 1
-            ops.append(("add", a, None)); cur.append(a)
+            # a Thompson policy with a binarizer may receive another binarizer together with the new arm
+            bz = gen_binz(rng, cur + [a]) if (kind == "thompson" and binz is not None and rng.random() < 0.35) else None
+            ops.append(("add", a, bz)); cur.append(a)
         elif c < 0.62 and arm_changes and len(cur) > 2 and not fixed_arms:
             a = rng.choice(cur); cur.remove(a); removed.append(a)
             ops.append(("rem", a))
